@@ -8,6 +8,7 @@ import (
 	"runtime/debug"
 	"sort"
 	"strconv"
+	"strings"
 	"time"
 )
 
@@ -22,6 +23,13 @@ func main() {
 	verif := flag.String("verif", "/verif", "verif root (evidence, known findings)")
 	dump := flag.Bool("dump", false, "print every obligation")
 	flag.Parse()
+	// go/packages runs `go list`; it must be the toolchain the checker was built with (the
+	// system go is older than /repo's go.mod requires).
+	os.Setenv("PATH", "/opt/veriftools/go1.26.8/bin:"+os.Getenv("PATH"))
+	for _, kv := range []string{"GOTOOLCHAIN=local", "GOFLAGS=-mod=mod", "GOPROXY=off", "GOSUMDB=off", "GOWORK=off"} {
+		i := strings.Index(kv, "=")
+		os.Setenv(kv[:i], kv[i+1:])
+	}
 
 	if *prop == "list" {
 		ids := []string{}
